@@ -110,6 +110,9 @@ func c20Gen(r *core.Rng) c20Case {
 			cs.Ops = append(cs.Ops, c20Op{Kind: "dirty", Arg: core.Pick(r, []string{"untracked", "modified", "staged-new", "staged-modified", "deleted", "staged-deleted"})})
 		case k < 8:
 			cs.Ops = append(cs.Ops, c20Op{Kind: "clean"})
+		case k == 11 && r.Chance(1, 2):
+			// a branch named like a tag the tool handles
+			cs.Ops = append(cs.Ops, c20Op{Kind: "branch", Arg: core.Pick(r, []string{"v3", "v4", "v3.2.0", "release"})})
 		case k < 11:
 			name := core.Pick(r, c20Versions)
 			if r.Chance(1, 3) {
@@ -261,6 +264,8 @@ func evalC20(c *core.Ctx, cs c20Case, id string) Outcome {
 			} else {
 				g.git("tag", "-f", op.Arg, target)
 			}
+		case "branch":
+			g.git("branch", "-f", op.Arg, "HEAD")
 		case "version":
 			version = op.Arg
 			os.WriteFile(envFile, []byte("VERSION="+version+"\n"), 0o644)
